@@ -53,3 +53,29 @@ package link_solicit
 //@   loop 1 invariant forall k int :: 0 <= k && k < len(matches) ==> exists i2 int, j2 int :: 0 <= i2 && i2 < i && 0 <= j2 && j2 < j && matches[k] == local[i2] && matches[k] == remote[j2]
 //@   ensures forall k int :: 0 <= k && k < len(ret) ==> fresh(ret[k])
 //@   loop 1 invariant forall k int :: 0 <= k && k < len(matches) ==> fresh(matches[k])
+
+// ---- C31: a solicited stream has at most one owner ----
+// mu guards accepted and err: every access happens with the lock held. Each critical section
+// starts from an arbitrary state (any behaviour of other goroutines) and is verified alone:
+//  * accepted and err only ever go from unset to set (monotone),
+//  * Accept hands out the stream only in a section that found accepted == false and err == nil
+//    and sets accepted — so at most one Accept ever returns the stream, and none after a Close
+//    that returned true (which leaves err set),
+//  * Close closes the stream only if accepted is false at that moment.
+//@ guards solicitMountedStream.mu: accepted, err
+
+//@ func (*solicitMountedStream).AcceptMountedStream
+//@   noframe
+//@   ensures ret0 != nil ==> !atlock(s.accepted) && atlock(s.err) == nil && s.accepted
+//@   ensures atlock(s.accepted) ==> s.accepted
+//@   ensures atlock(s.err) != nil ==> s.err != nil
+
+//@ func (*solicitMountedStream).Close
+//@   noframe
+//@   ensures ret ==> !atlock(s.accepted) && s.err != nil
+//@   ensures atlock(s.accepted) ==> s.accepted && !ret
+//@   ensures atlock(s.err) != nil ==> s.err != nil
+//@   assert at call invoke.Close: !s.accepted
+
+//@ func (*solicitMountedStream).IsAccepted
+//@   ensures ret == atlock(s.accepted) && s.accepted == atlock(s.accepted) && s.err == atlock(s.err)
